@@ -578,6 +578,36 @@ pub fn attack_trace(air: &ProcessorAir, main: &ColMatrix<Felt>, budget: usize, k
                 }
             }
         }
+        if is_hasher(r) && is_hasher(r + 1) && (hasher_cycles <= budget * 2 || (r / 8 + stride_salt) % 13 == 0) {
+            // selectors and node index (chiplets/hasher.md, "Selector" and "Node index" constraints)
+            let sel = (main.get(tk::CHIP + 1, r).as_int(), main.get(tk::CHIP + 2, r).as_int(), main.get(tk::CHIP + 3, r).as_int());
+            let pos = r % 8;
+            let merkle_sel = matches!(sel, (1, 0, 1) | (1, 1, 0) | (1, 1, 1));
+            let f_an = (pos == 0 && merkle_sel) || (pos == 7 && merkle_sel);
+            let f_out = pos == 7 && sel.0 == 0 && sel.1 == 0;
+            if w.honest_ok(r) {
+                if pos <= 5 {
+                    // neither this row nor the next one is an output row: s1 and s2 are kept
+                    for (c, nm) in [(tk::CHIP + 2, "s1'"), (tk::CHIP + 3, "s2'")] {
+                        if main.get(c, r + 1) == main.get(c, r) {
+                            classes.insert("hasher-selectors".into());
+                            let mut cell = Cell::new(true, c, format!("{nm}(kept inside a cycle)"));
+                            cell.only = Some(vec![Felt::ZERO, Felt::ONE, f(2), f(P - 1)]);
+                            w.attack(r, "hasher", &cell, &[], false);
+                        }
+                    }
+                }
+                let ic = tk::CHIP + 16;
+                if !f_an && !f_out && main.get(ic, r + 1) == main.get(ic, r) {
+                    classes.insert("hasher-node-index(kept)".into());
+                    w.attack(r, "hasher", &Cell::new(true, ic, "node-index'(kept when no node is absorbed)"), &[], false);
+                }
+                if f_out && main.get(ic, r) == Felt::ZERO {
+                    classes.insert("hasher-node-index(zero at output)".into());
+                    w.attack(r, "hasher", &Cell::new(false, ic, "node-index(zero on an output row)"), &[], false);
+                }
+            }
+        }
         if is_hasher(r) && is_hasher(r + 1) && r % 8 == 7 {
             // last row of a cycle: what is carried into the next permutation depends on the
             // hasher's own selectors (columns CHIP+1..CHIP+3) at this row
